@@ -19,10 +19,18 @@ TRUSTED_BASE = [
 ASSUMPTIONS = ["regular expressions restricted to ^literal$ forms", "--to always passed explicitly", "-a always passed (sibling order without -a is C06's concern)"]
 TECHNIQUE = ("Coq: closed-form ledger specification + refinement proof of the stateful pipeline model to it; spec evaluated on the "
              "binary's CSV and byte-exact model/implementation correspondence on generated journals")
-LEVEL_TEXT = ("The report of the model is proved equal to the closed-form ledger computation (see Properties/C02.v for what is proved at "
-              "full strength and what is partial); on every run the closed form is also evaluated against the real binary's output, "
-              "which is how the Shorten aliasing defect (fixed in /repo 2f5b0b6) was found.")
-LEVEL_NOTE = ("Trusted: kernel, extraction, harness, the hand-written model (sampled tie to the code). Parser not in the loop (C07).")
+LEVEL_TEXT = ("Proved in Coq at full strength (Properties/C02.v): C02_cells -- every cell of the model's report equals the closed-form "
+              "ledger sum -- and C02_rows -- the report has a row exactly for the accounts the ledger computation lists (ledger_row) -- for "
+              "every journal, window, interval, --last, filter, mapping, remap, with and without --close.  With --close the stateful "
+              "CloseAccounts processor is thereby proved equal to Spec.LedgerSpec.closing_entries (at each period start the amounts the "
+              "non-A/L accounts accumulated since the previous period start move to Equity:Equity).  The --close case assumes the posting "
+              "accounts are ones the parser can produce (no colon or NUL byte inside a segment; C02_cells_unsyntactic_refuted shows the "
+              "model, not knut, needs it).  Not proved: the text of the CSV (order of the row blocks, commodity lines, totals, delta, "
+              "printed numbers) = ledger_csv; that is compared with the real binary's CSV and the model's CSV on every run, which is how "
+              "the Shorten aliasing defect (fixed in /repo 2f5b0b6) was found.")
+LEVEL_NOTE = ("Trusted: kernel, extraction, harness, the hand-written model (sampled tie to the code). Parser not in the loop (C07). "
+              "Cells are compared as rational values (decimal addition is exact); their printed form is part of the byte comparison only. "
+              "Rows are the nodes of the report trees; that the renderer emits every node is part of the byte comparison only.")
 
 
 def plan(tier, seed):
